@@ -167,6 +167,13 @@ class ListOf(TypeDesc):
         self.elem, self.n = elem, n
 
 
+class DictOf(TypeDesc):
+    """dict with exactly these (concrete) keys and typed values."""
+
+    def __init__(self, **fields: Any):
+        self.fields = fields
+
+
 class Seq(TypeDesc):
     """Sequence of symbolic length with elements of type elem (read-only)."""
 
